@@ -261,3 +261,41 @@ Definition check_xvoice (mei : bool) (ms : list measure) (v : nat * nat * Z * li
 
 Definition check_xdoc (mei : bool) (ms : list measure) (vs : list (nat * nat * Z * list (Q * Q * Z))) : bool :=
   forallb (check_xvoice mei ms) vs.
+
+(* ---------------------------------------------------------------- part 5: kern spine splits *)
+
+(* partitura/io/importkern.py parse_by_voice: number of sub-spines ("voices") of one spine, line by line: the cells of
+   a line are the first `voices` cells; any "*^" among them adds ONE sub-spine, otherwise "*v" cells remove
+   (their number) // 2.  humdrum_width is what the notation means: every "*^" adds one sub-spine, every maximal run of
+   n adjacent "*v" merges n sub-spines into one. *)
+Inductive ktok := KSplit | KMerge | KOther.
+Definition is_split (t : ktok) : bool := match t with KSplit => true | _ => false end.
+Definition is_merge (t : ktok) : bool := match t with KMerge => true | _ => false end.
+Definition count_tok (f : ktok -> bool) (l : list ktok) : Z := Z.of_nat (List.length (filter f l)).
+
+Definition step_width (w : Z) (line : list ktok) : Z :=
+  let cells := firstn (Z.to_nat w) line in
+  if existsb is_split cells then w + 1 else w - count_tok is_merge cells / 2.
+
+Fixpoint widths (w : Z) (lines : list (list ktok)) : list Z :=
+  match lines with [] => [] | l :: r => w :: widths (step_width w l) r end.
+
+Definition spine_voices (lines : list (list ktok)) : Z := fold_right Z.max 1 (widths 1 lines).
+
+Definition flush (cur : nat) : list nat := match cur with O => [] | S _ => [cur] end.
+Fixpoint merge_runs (cur : nat) (l : list ktok) : list nat :=
+  match l with
+  | [] => flush cur
+  | KMerge :: r => merge_runs (S cur) r
+  | _ :: r => flush cur ++ merge_runs O r
+  end.
+Definition runs_loss (runs : list nat) : Z := fold_right (fun n acc => acc + (Z.of_nat n - 1)) 0 runs.
+Definition humdrum_width (w : Z) (line : list ktok) : Z :=
+  w + count_tok is_split line - runs_loss (merge_runs O line).
+
+
+Definition ktok_of_Z (z : Z) : ktok := match z with 1 => KSplit | 2 => KMerge | _ => KOther end.
+
+(* one spine: its cells line by line (0 other, 1 "*^", 2 "*v"), the number of voices the loader gave the spine *)
+Definition check_spine (c : list (list Z) * Z) : bool :=
+  let '(lines, nvoices) := c in spine_voices (map (map ktok_of_Z) lines) =? nvoices.
